@@ -17,6 +17,31 @@ pub proof fn axiom_arp_abspath(a: AbsPath)
 {
 }
 
+/// what `Display for AbsPath` prints: the path relative to the base directory of the run (abs_path.rs:153-185;
+/// `path_string_from_base` is not under contract).  This is the text of TXTPP_FILE and of error messages.
+pub uninterp spec fn display_v(a: AbsPath) -> Seq<char>;
+
+/// trusted: `a.to_string()` is what `Display for AbsPath` prints
+#[verifier::external_body]
+pub proof fn axiom_abspath_to_string(c: &AbsPath, s: String)
+    requires
+        vstd::string::to_string_from_display_ensures::<AbsPath>(c, s),
+    ensures
+        s@ == display_v(*c),
+{
+}
+
+/// what a successful processing of a source leaves at its output path `out` when `t` is the text it produced:
+/// Build: the file is `t`; --needed: written or already equal; Verify: the existing file IS `t`; Clean: nothing
+pub open spec fn out_effect(mode: Mode, out: PathV, t: Seq<u8>) -> bool {
+    match mode {
+        Mode::Build => committed(out, t),
+        Mode::InMemoryBuild => committed(out, t) || (fs_exists(out) && fs_bytes(out) == t),
+        Mode::Clean => true,
+        Mode::Verify => fs_bytes(out) == t,
+    }
+}
+
 impl CtxOut {
     /// representation invariant: the handle is open on `path`; in Verify `rem` counts the unread bytes
     pub closed spec fn wf(&self) -> bool {
